@@ -185,6 +185,14 @@ CLAIMED = {
 }
 NA_REASON = "machinery under construction in this round; not yet claimed"
 
+def _fix_note():
+    import json as _j
+    k = _j.load(open('/verif/known_findings.json'))['findings']
+    fixed = sorted({'%s (%s)' % (e['commit'], e['id']) for e in k if e['status'] == 'fixed'})
+    known = sorted(e['id'] for e in k if e['status'] == 'known')
+    return 'repaired by unguarded fix: commits in /repo: %s; recorded as known findings: %s. No source hook was needed (hooks.source_commits is empty).' % (', '.join(fixed), ', '.join(known))
+
+
 def main():
     checks = []
     for pid, c in sorted(CLAIMED.items()):
@@ -205,7 +213,7 @@ def main():
                   'kind_free_text': 'Coq 8.16 development (Model/, Proofs/, Properties/) extracted to the OCaml driver ocaml/_build/dsgm; harness/check.py runs proofs + correspondence'}],
      'checks': checks,
      'not_applicable': na,
-     'notes': 'See DESIGN.md. known_findings.json lists genuine defects (fixed / known).',
+     'notes': 'See DESIGN.md (section 0 is the as-built status). known_findings.json lists the genuine defects: ' + _fix_note(),
     }
     json.dump(m, open(os.path.join(V, 'MANIFEST.json'), 'w'), indent=1)
 
